@@ -37,7 +37,15 @@ def run(ctx):
                     'collected values', minimum=6)
     rpf = ctx.rule('R-POLICYFWD', 'a function instantiated with a FailPolicy hands the same policy to every callee that '
                    'is parameterised by one (entry point -> when::When -> strategy class)', minimum=12)
+    ron = ctx.rule('R-ONENODE', 'a combinator callback node is registered on at most one shared input (a shared core links its subscribers through the node\'s next pointer)', minimum=4)
+    rho = ctx.rule('R-HANDOFF', 'a When* combinator is not touched after its last input has been registered: the registration loop\'s condition / increment and the code after it work on locals only', minimum=2)
     for cfg, fb in sorted(fbs.items()):
+        from rules import lib_when as _lw
+        if (ctx.guard(lambda: _lw.check_one_node(ctx, fb, ron)) or 0) < 2:
+            ctx.guard(lambda: ctx.broken('R-ONENODE: no StaticCombinator / SingleCombinator instantiation found'))
+        from rules import lib_when as _lw2
+        if (ctx.guard(lambda: _lw2.check_handoff_loops(ctx, fb, rho)) or 0) < 1:
+            ctx.guard(lambda: ctx.broken('R-HANDOFF: no registration loop of a When* combinator found'))
         ctx.guard(lambda: lib_when.check_policy_forward(ctx, fb, rpf, r'^yaclib::(WhenAll|Join)$', False))
         ctx.guard(lambda: lib_core.check_move_sites(ctx, fb, rmv, lambda f: 'async/when' in f.file or f.file.endswith('detail/shared_core.hpp') or f.file.endswith('detail/unique_core.hpp')))
         ctx.guard(lambda: lib_core.check_loop_caller(ctx, fb, rl, lambda f: f.clsq.startswith('yaclib::when::')))
